@@ -113,6 +113,7 @@ struct Global {
   int construction = 0;  // 0 enumerated, 1 lazy power set of `lazyOf`, 2 lazy product of `lazyFactors`
   std::vector<std::string> lazyParts;
   bool isBase = false, integral = false;
+  bool props = false;    // value class 'props' (a property, e.g. a power set: may be tested for membership but not enumerated)
 };
 struct Gamma {
   std::vector<Global> globals;
@@ -485,7 +486,7 @@ struct TypedGen {
       std::vector<const Global*> setGlobals; for (auto& x : G.globals) if (x.type.isSet() && x.value.items.size() <= 4) setGlobals.push_back(&x);
       if (kind == 1 && !setGlobals.empty()) {  // full power set of a small set global
         const Global* b = c.oneof(setGlobals);
-        g.type = Ty::Set(b->type); g.construction = 1; g.lazyParts = {b->name};
+        g.type = Ty::Set(b->type); g.construction = 1; g.lazyParts = {b->name}; g.props = c.coin();
         std::vector<Val> subs; const size_t n = b->value.items.size();
         for (size_t m = 0; m < (size_t{1} << n); ++m) { std::vector<Val> s; for (size_t k = 0; k < n; ++k) if (m >> k & 1) s.push_back(b->value.items[k]); subs.push_back(Val::Set(s)); }
         g.value = Val::Set(subs);
